@@ -598,6 +598,83 @@ theorem C20_auth_retry_keeps_deadline (s : St) (iv : Nat) (hc : s.closed = false
   subst hph hc
   simp [step]
 
+
+/-! ## Traffic *to* the peer is invisible to the timers -/
+
+/-- the state with the server-initiated frames removed from what the peer has read -/
+def strip (s : St) : St := { s with out := s.out.filter (fun p => p.2 ≠ Frame.pushed) }
+
+theorem strip_fire (s : St) : strip (fire s) = fire (strip s) := by
+  obtain ⟨cfg, now, phase, task, activity, slot, pings, closed, out, opened, phaseAt, lastAct, pingAt⟩ := s
+  cases closed
+  · cases task with
+    | idle => simp [fire, strip]
+    | deadline d r => simp [fire, strip, closeWith, List.filter_append]
+    | waiting n dl => simp [fire, strip, closeWith, List.filter_append]
+    | sleeping w last =>
+      cases phase with
+      | authed iv =>
+        by_cases ha : activity = last
+        · cases slot <;> simp [fire, strip, closeWith, List.filter_append, ha]
+        · simp [fire, strip, ha]
+      | _ => simp [fire, strip]
+  · simp [fire, strip]
+
+theorem strip_step (s : St) (e : Ev) (he : e ≠ .deliver) : strip (step s e) = step (strip s) e := by
+  cases e with
+  | deliver => exact absurd rfl he
+  | fire =>
+    have := strip_fire s
+    simp only [step]
+    by_cases hc : s.closed = true
+    · simp [hc, strip]
+    · have hc' : s.closed = false := by simpa using hc
+      have hc2 : (strip s).closed = false := by simpa [strip] using hc'
+      simp [hc', hc2, this]
+  | _ =>
+    obtain ⟨cfg, now, phase, task, activity, slot, pings, closed, out, opened, phaseAt, lastAct, pingAt⟩ := s
+    simp only [step, strip]
+    cases closed <;> simp
+    all_goals (try (cases phase <;> simp [closeWith, startPing, due, List.filter_append]))
+    all_goals (try (cases task <;> simp [closeWith, startPing, due, List.filter_append]))
+    all_goals (repeat' split)
+    all_goals (try simp [closeWith, startPing, List.filter_append] at *)
+    all_goals (try simp_all)
+    all_goals (try grind)
+
+theorem strip_deliver (s : St) : strip (step s .deliver) = strip s := by
+  obtain ⟨cfg, now, phase, task, activity, slot, pings, closed, out, opened, phaseAt, lastAct, pingAt⟩ := s
+  simp only [step, strip]
+  cases closed <;> simp
+  cases phase <;> simp [List.filter_append]
+
+/-- **C20 (only the peer's own activity counts)**: whatever is routed to a connection, and whenever, every timer
+    decision and every frame the keep-alive machinery writes (acknowledgements, PINGs, errors, with their time stamps)
+    is exactly what it would have been without those deliveries.  In particular a connection that sends nothing is
+    pinged and timed out on the same schedule however busy the channels it listens to are. -/
+theorem C20_deliveries_invisible (s : St) (evs : List Ev) :
+    strip (run s evs) = run (strip s) (evs.filter (fun e => e ≠ Ev.deliver)) := by
+  induction evs generalizing s with
+  | nil => rfl
+  | cons e es ih =>
+    simp only [run, List.foldl_cons] at ih ⊢
+    by_cases he : e = .deliver
+    · subst he
+      simp only [ne_eq, not_true_eq_false, decide_false, Bool.false_eq_true, not_false_eq_true, List.filter_cons_of_neg]
+      rw [ih, strip_deliver]
+    · have hd : (decide (e ≠ Ev.deliver)) = true := by simpa using he
+      simp only [List.filter_cons, hd, if_true, List.foldl_cons]
+      rw [ih, strip_step s e he]
+
+/-- a delivery reaches only a registered (authenticated) connection and writes exactly one frame to it -/
+theorem C20_deliver_inert (s : St) :
+    (step s .deliver).task = s.task ∧ (step s .deliver).activity = s.activity ∧ (step s .deliver).slot = s.slot ∧
+    (step s .deliver).phase = s.phase ∧ (step s .deliver).closed = s.closed ∧ (step s .deliver).now = s.now := by
+  obtain ⟨cfg, now, phase, task, activity, slot, pings, closed, out, opened, phaseAt, lastAct, pingAt⟩ := s
+  simp only [step]
+  cases closed <;> simp
+  cases phase <;> simp
+
 /-! ## Non-vacuity: concrete runs meeting the hypotheses -/
 
 def exCfg : Cfg := { link := .c2s, connectTimeout := 100, authTimeout := 50, keepAlive := 30, minKeepAlive := 10 }
@@ -609,6 +686,10 @@ example : (run (init exCfg 0) [.wait 20, .connect 5, .authOk, .fire, .fire]).out
 -- a matching PONG keeps it open; an active client is then never pinged
 example : (runActive 10 (run (init exCfg 0) [.connect 5, .authOk, .fire, .wait 12, .pong 1])
     [.wait 15, .request, .fire, .wait 24, .request, .fire, .request]).map (fun s => (s.closed, s.pings)) = some (false, 1) := by decide
+-- a silent listener on a busy channel is pinged and timed out on schedule
+example : (run (init exCfg 0) [.connect 5, .authOk, .wait 4, .deliver, .wait 9, .deliver, .fire, .wait 15, .deliver, .deliver, .fire]).out =
+    [(0, .ack 10), (0, .authOk), (4, .pushed), (9, .pushed), (10, .ping 1), (15, .pushed), (15, .pushed),
+     (40, .error .timeoutPing), (40, .eof)] := by decide
 -- never connected: closed at exactly the deadline
 example : (run (init exCfg 7) [.wait 106, .fire]).out = [(107, .error .timeoutConnect), (107, .eof)] := by decide
 -- failed attempts do not move the authentication deadline
@@ -640,3 +721,5 @@ end Narwhal.Timers
 #print axioms Narwhal.Timers.C20_shutdown_all
 #print axioms Narwhal.Timers.C20_closed_is_final
 #print axioms Narwhal.Timers.C20_auth_retry_keeps_deadline
+#print axioms Narwhal.Timers.C20_deliveries_invisible
+#print axioms Narwhal.Timers.C20_deliver_inert
